@@ -16,7 +16,13 @@ the georeference the object has at that point of the history), with and without 
 snapped downstream to (upstream cell count >= k, downstream-closed, random, all-True / all-False; start cells on and off
 the mask). The network after the call is compared with the harness' own snap (walk downstream to the first True cell or
 pit). After every mutator the probe set also holds basins() (rasters) and, on a state-sharing clone of the object and of
-the twin, the explicit cell order of both methods with the node count, upstream area and basins derived from it."""
+the twin, the explicit cell order of both methods with the node count, upstream area and basins derived from it.
+
+Mutators that raise: only the documented ValueError / IndexError are accepted (the object must then answer like before);
+any other exception of a mutator is a failure. The save/load round trip has no documented error at all: it must succeed
+on every object, whatever ran before (its outcome is compared with the round trip of the fresh twin). A third of the
+histories holds, at a random position, a query that memoises the cell-area grid (area, upstream_area / ucat_area in a
+unit other than cells, subbasins_area, floodplains without an upstream-area map) directly followed by a round trip."""
 import copy
 import io
 import json
@@ -43,6 +49,9 @@ RULE = ("random histories (quick: length <= 12, thorough: <= 30; plus all histor
         "random, all-True/False; start cells on and off the mask), network after the call checked against the harness' "
         "own downstream snap; probes after a mutator include basins() and both explicit cell orders (on a clone) with "
         "the node count / upstream area / basins derived from them; "
+        "a mutator may only raise ValueError / IndexError, dump/load must succeed after every history (outcome compared "
+        "with dump/load of the fresh twin); ~1/3 of the histories hold an area-memoising query (area, upstream_area / "
+        "ucat_area with unit != cell, subbasins_area, floodplains) directly followed by dump/load; "
         "non-trivial = history with >= 1 mutator or >= 2 queries sharing a cache key; distinct = SHA-1 of "
         "(class, network, history)")
 
@@ -50,7 +59,8 @@ CACHE_KEYS = {"rank": "rank", "isvalid": "rank", "nnodes": "rank", "idxs_us_main
               "main_upstream": "idxs_us_main", "stream_order": "strord", "path_up": "idxs_us_main",
               "upstream_area_m2": "area", "area": "area", "distnc": "distnc", "subgrid_rivlen_m": "distnc",
               "moving_average": "idxs_us_main", "subbasins_streamorder": "strord", "subbasins_area": "idxs_us_main",
-              "subbasins_pfafstetter": "idxs_us_main"}
+              "subbasins_pfafstetter": "idxs_us_main", "floodplains": "area", "ucat_area": "area",
+              "upstream_area_unit": "area"}
 
 
 # ---------------------------------------------------------------------------------------------
@@ -177,7 +187,7 @@ def gen_op(rng, o, n, valid, force=None):
     if raster:
         queries += ["basins", "subbasins_streamorder", "subbasins_area", "upstream_area_unit", "stream_distance",
                     "snap", "hand", "streams", "outflow_idxs", "subgrid_rivlen", "ucat_area", "to_array_nextxy",
-                    "subbasins_pfafstetter"]
+                    "subbasins_pfafstetter", "floodplains"]
     mutators = ["order_cells", "add_pits", "add_pits", "repair_loops", "dumpload"] + (["set_transform"] if raster else [])
     if force is not None:
         name = force
@@ -253,6 +263,12 @@ def gen_op(rng, o, n, valid, force=None):
     elif name == "ucat_area":
         a["unit"] = rng.choice(["cell", "m2", "km2"])
         a["idxs_out"] = [rng.choice(valid) for _ in range(2)]
+    elif name == "floodplains":
+        # upstream area computed on the fly [km2] (memoises the cell areas) or the default-free variant with a user map
+        a["elevtn"] = [rng.randint(0, 20) for _ in range(n)]
+        a["uparea"] = None if rng.random() < 0.75 else [rng.randint(1, 40) / 4 for _ in range(n)]
+        a["upa_min"] = km2 * rng.choice([0.5, 1.5, 2.5, 4.5]) if a["uparea"] is None else rng.choice([1.0, 6.0])
+        a["b"] = rng.choice([0.3, 0.3, 0.5, 1.0])
     elif name == "order_cells":
         a["method"] = rng.choice(["sort", "walk"])
     elif name == "add_pits":
@@ -443,6 +459,9 @@ def apply(o, name, a):
         return _canon(f.ucat_area(np.array(a["idxs_out"], dtype=f.idxs_ds.dtype), unit=a["unit"]))
     if name == "to_array_nextxy":
         return _canon(f.to_array("nextxy"))
+    if name == "floodplains":
+        upa = None if a["uparea"] is None else own_upsum(f, a["uparea"]).reshape(shp)
+        return _canon(f.floodplains(arr(a["elevtn"], np.float32), uparea=upa, upa_min=a["upa_min"], b=a["b"]))
     # mutators
     if name == "order_cells":
         f.order_cells(a["method"])
@@ -529,7 +548,37 @@ def safe_apply(o, name, a):
     try:
         return ("ok", apply(o, name, a))
     except Exception as e:  # noqa: BLE001
+        o.last_exc = f"{type(e).__name__}: {e}"[:240]
         return ("exc", exc_class(e))
+
+
+MUTATORS = ("order_cells", "add_pits", "repair_loops", "set_transform", "dumpload")
+# what a mutator may raise (documented input errors); the save/load round trip documents none
+MUTATOR_MAY_RAISE = {"order_cells": ("ValueError",), "add_pits": ("ValueError", "IndexError"), "repair_loops": (),
+                     "set_transform": ("ValueError",), "dumpload": ()}
+
+
+def judge_mutator_exc(o, name, a, got, step):
+    """a mutator of the history raised: failure unless it is a documented error class. The round trip is also run on the
+    fresh twin (same network / georeference / settings / order, no history) to say whether the outcome depends on the
+    history."""
+    if got[1] in MUTATOR_MAY_RAISE[name]:
+        _obs(f"mutator-raises-documented:{name}:{got[1]}")
+        return None
+    what = f"mutator {name} raised {getattr(o, 'last_exc', got[1])}"
+    fail = {"step": step, "op": name, "kind": "spec", "got": repr(got)}
+    if name == "dumpload":
+        t = o.twin()
+        g2 = safe_apply(t, name, a)
+        fail["fresh"] = repr(g2)
+        keys = sorted(o.real._cached.keys())
+        what = (f"save/load round trip after this history raised {getattr(o, 'last_exc', got[1])} (memoised: {keys}); the round trip "
+                f"of a fresh object holding the same network and settings " + ("succeeds: the outcome depends on the history"
+                                                                              if g2[0] == "ok" else f"raised {getattr(t, 'last_exc', g2[1])}"))
+    else:
+        what += f" (accepted: {list(MUTATOR_MAY_RAISE[name]) or 'nothing'})"
+    fail["what"] = what
+    return fail
 
 
 def load_table():
@@ -553,8 +602,12 @@ def run_history(spec, table=None):
     for step, (name, a) in enumerate(spec["ops"]):
         keys_before = set(o.real._cached.keys())
         got = safe_apply(o, name, a)
+        if name in MUTATORS and got[0] == "exc":
+            fail = judge_mutator_exc(o, name, a, got, step)
+            if fail is not None:
+                return fail
         t = o.twin()
-        if name in ("order_cells", "add_pits", "repair_loops", "set_transform", "dumpload"):
+        if name in MUTATORS:
             # mutators: compare the observable state afterwards through a fixed probe set
             probes = [("rank", {}), ("idxs_pit", {}), ("nnodes", {}), ("idxs_us_main", {}), ("area", {}), ("distnc", {}),
                       ("stream_order", {"type": "strahler", "mask": None}), ("upstream_area", {})]
@@ -633,10 +686,10 @@ def memoiser(rng, ds, n, valid):
 
 
 # configurations the first histories of every run are built with (the remaining ones are drawn at random)
-STRATA = [{"cls": "vector", "area": True, "cache": False}, {"cls": "raster", "polar": True, "cache": True, "around": True},
-          {"cls": "vector", "area": True, "cache": True}, {"cls": "raster", "polar": True, "cache": False, "around": True},
+STRATA = [{"cls": "vector", "area": True, "cache": False}, {"cls": "raster", "polar": True, "cache": True, "around": True, "memodump": True},
+          {"cls": "vector", "area": True, "cache": True, "memodump": True}, {"cls": "raster", "polar": True, "cache": False, "around": True},
           {"cls": "vector", "area": True, "cache": False}, {"cls": "raster", "polar": True, "cache": True, "around": True},
-          {"cls": "raster", "polar": False, "cache": True, "around": True}, {"cls": "raster", "polar": True, "cache": True, "around": True},
+          {"cls": "raster", "polar": False, "cache": True, "around": False, "memodump": True}, {"cls": "raster", "polar": True, "cache": True, "around": True},
           {"cls": "vector", "area": True, "cache": False}, {"cls": "raster", "polar": True, "cache": True, "around": True},
           {"cls": "vector", "area": False, "cache": False}, {"cls": "raster", "polar": True, "cache": True, "around": True}]
 
@@ -674,6 +727,31 @@ def gen_spec(rng, tier, maxlen, force=None):
             o.transform, o.latlon = Affine(*a["transform"]), a["latlon"]
         return (name, a)
 
+    def area_memoiser():
+        """a query after which (cache on) the object holds its cell / node areas"""
+        if cls != "raster":
+            return draw(rng.choice(["area", "upstream_area"]))
+        q = draw(rng.choice(["area", "upstream_area_unit", "subbasins_area", "ucat_area", "floodplains"]))
+        if q[0] in ("upstream_area_unit", "ucat_area") and q[1]["unit"] == "cell":
+            q[1]["unit"] = rng.choice(["m2", "km2", "ha"] if q[0] == "upstream_area_unit" else ["m2", "km2"])
+        if q[0] == "floodplains" and q[1]["uparea"] is not None:
+            q[1]["uparea"], q[1]["upa_min"] = None, cell_km2(o.transform, o.latlon, shape[0]) * 1.5
+        return q
+
+    def rand_ops(k):
+        """k random ops; with `memodump`, an area-memoising query directly followed by a save/load round trip is put at a
+        random position between them (and now and then a second one later on)"""
+        at = {rng.randint(0, k)} if memodump else set()
+        if memodump and rng.random() < 0.25:
+            at.add(rng.randint(0, k))
+        for j in range(k + 1):
+            if j in at:
+                ops.append(area_memoiser())
+                ops.append(("dumpload", {}))
+            if j < k:
+                ops.append(draw())
+
+    memodump = force.get("memodump", rng.random() < (0.4 if cls == "raster" else 0.15))
     ops = []
     if has_loops(ds):
         # traces on networks with loops are outside the documented domain (they need not end): only
@@ -691,13 +769,11 @@ def gen_spec(rng, tier, maxlen, force=None):
             ops.append(memoiser(rng, ds, n, valid))
         ops.append(sub)
         nrand = max(0, nrand - 4)
-        for _ in range(nrand):
-            ops.append(draw())
+        rand_ops(nrand)
         if nrand and rng.random() < 0.5:
             ops.append(draw(sub[0]))
     else:
-        for _ in range(nrand):
-            ops.append(draw())
+        rand_ops(max(0, nrand - 2) if memodump else nrand)
     spec["ops"] = ops
     return spec
 
@@ -757,6 +833,9 @@ def run(ctx):
         dict(base, ds=[0, 2, 1, 2, 3, 4], ops=[("nnodes", {}), ("idxs_seq", {}), ("repair_loops", {}), ("nnodes", {}), ("rank", {})]),
         dict(base, cache=False, ops=[("rank", {}), ("stream_order", {"type": "strahler", "mask": None}), ("distnc", {}), ("idxs_us_main", {})]),
         dict(base, ops=[("order_cells", {"method": "sort"}), ("dem_adjust", {"elevtn": [3, 1, 2, 5, 0, 4]}), ("dumpload", {}), ("dem_adjust", {"elevtn": [3, 1, 2, 5, 0, 4]})]),
+        # save/load round trip directly after queries that memoise the cell areas
+        dict(base, transform=[250, 0, 1000, 0, -200, 5000], ops=[("upstream_area_unit", {"unit": "km2"}), ("dumpload", {}), ("upstream_area_unit", {"unit": "km2"}),
+                                                                 ("ucat_area", {"unit": "m2", "idxs_out": [5, 2]}), ("dumpload", {}), ("area", {})]),
         # add_pits with a stream mask: start cells off the mask (snapped) and on it, by idxs and by xy; vector object
         dict(base, ops=[("upstream_area", {}), ("order_cells", {"method": "walk"}), ("add_pits", {"idxs": [3, 1], "streams": [False, True, True, False, False, True]}),
                         ("basins", {"idxs": None}), ("idxs_seq", {})]),
@@ -779,6 +858,10 @@ def run(ctx):
             ctx.count("raster-built-geographic-60-88deg")
         for x in names:
             ctx.count("op:" + x)
+        for k, (x, xa) in enumerate(ops[:-1]):
+            if ops[k + 1][0] == "dumpload" and (x in ("area", "subbasins_area") or (x == "floodplains" and xa["uparea"] is None) or (
+                    x in ("upstream_area_unit", "ucat_area") and xa["unit"] != "cell") or (x == "upstream_area" and spec["cls"] == "vector")):
+                ctx.count(f"area-memoiser-then-dumpload:{spec['cls']}:cache={spec['cache']}")
         for x, xa in ops:
             if x == "add_pits":
                 ctx.count("add_pits:" + ("xy" if xa.get("by") == "xy" else "idxs") + ("+streams" if xa.get("streams") is not None else ""))
